@@ -2,7 +2,7 @@ SPECIFICATION MCSpec
 CONSTANTS
   PermuteModules = FALSE
   NB0 = {0, 1, 2}
-  Variants = {"none", "same", "ext", "trunc", "swap", "rename", "recv", "ptype", "pcount", "ret", "cc", "argname", "vis", "doc"}
+  Variants = {"none", "same", "ext", "extm0", "trunc", "swap", "rename", "recv", "ptype", "pcount", "ret", "cc", "argname", "vis", "doc"}
   WithB1 = {FALSE, TRUE}
   B1Vft = {FALSE, TRUE}
   Clash = {"no", "derived"}
